@@ -1,0 +1,12 @@
+//go:build verif
+
+/*
+ * Verification hook (build tag `verif`), add-only: exposes the sentinel returned when an
+ * empty stream is concatenated, so the /verif harness can classify it with errors.Is
+ * (property C17).  Nothing in this file is compiled into a normal build.
+ */
+
+package compose
+
+// VerifEmptyStreamConcatErr returns the sentinel of concatStreamReader on an empty stream.
+func VerifEmptyStreamConcatErr() error { return emptyStreamConcatErr }
